@@ -325,3 +325,34 @@ def name_injective_hashed(ia, fa, sa, ba, ib, fb, sb, bb, nest):
     nest = bool(nest)
     with env.notrace():
         return _hashed(*a, nest)
+
+
+# ---- numeric values in readable names: unequal numbers never share a name ---------------------------------------
+FL = [0.1 + 0.2, 0.3, 1000.0005, 1000.0004, 1234567.0, 1234568.0, 1e-9, 1.0000001e-9, 1.0, 1.0000000000000002, 2.5e-11, 1e22, 1e22 + 2 ** 21, -0.3, 0.0]
+_FLT = {}
+
+
+def _floats(fa, fb, ia, ib):
+    env._reset_all()
+    if not _FLT:
+        @h.paramclass
+        class FP:
+            r = h.Param(dtype=float, desc="r")
+            n = h.Param(dtype=int, desc="n")
+        _FLT["FP"] = FP
+    FP = _FLT["FP"]
+    E = h.ExternalModule(name="E", port_list=[], paramtype=FP)
+    na, nb = E(FP(r=FL[fa], n=ia)).name, E(FP(r=FL[fb], n=ib)).name
+    env.COUNTS["reached"] += 1
+    return (na == nb) == (FL[fa] == FL[fb] and ia == ib)
+
+
+@harness("C09", args="fa: int, fb: int, ia: int, ib: int", pre=[f"0 <= fa < {len(FL)}", f"0 <= fb < {len(FL)}", "0 <= ia <= 1", "0 <= ib <= 1"],
+         tiers={"quick": {"timeout": 120}}, sample=(0, 1, 1, 1),
+         bounds="readable names of an all-scalar class (float, int): floats that agree in their first 6 / 15 / 16 significant digits, neighbouring doubles, large and tiny magnitudes, negative and zero; one name iff equal values",
+         generalises="value selectors (solver-enumerated)", outside="")
+def name_injective_floats(fa, fb, ia, ib):
+    P = env.pick
+    a = (P(fa, 0, len(FL) - 1), P(fb, 0, len(FL) - 1), P(ia, 0, 1), P(ib, 0, 1))
+    with env.notrace():
+        return _floats(*a)
